@@ -398,6 +398,10 @@ def bundle(cls: type) -> Bundle:
             # Special-case the upper-cased `Roles`, as it'll often be a class-def
             setattr(bundle, "roles", val)
         elif isinstance(val, Role):
+            if val.name is None:
+                # Roles made by `h.Roles(n)` / `n * h.Role()` have no name yet, and compare equal to one another.
+                # Name them in place; the Signals declared after them refer to these objects.
+                val.name = key
             roles_dict[key] = val
         elif is_bundle_attr(val):
             setattr(bundle, key, val)
